@@ -375,6 +375,8 @@ def term_attr(it, base, attr, env, node):
         return sp.re(base)
     if attr == "imag":
         return sp.im(base)
+    if attr == "shape" and base in getattr(it, "shape_hints", {}):
+        return tuple(it.shape_hints[base])
     if attr in TERM_ATTRS_OPAQUE:
         return op(attr, base)
     if attr in TERM_METHODS:
